@@ -204,10 +204,16 @@ func (c *LocalActionsCache) readCache(key string) (*ActionMetadata, bool) {
 	return m, ok
 }
 
-func (c *LocalActionsCache) writeCache(key string, val *ActionMetadata) {
+// writeCache stores the value unless the key is already stored by other goroutine after readCache was called. It
+// returns the value in the cache and true in the case. This is necessary to tell "not cached" only to one caller.
+func (c *LocalActionsCache) writeCache(key string, val *ActionMetadata) (*ActionMetadata, bool) {
 	c.mu.Lock()
+	defer c.mu.Unlock()
+	if m, ok := c.cache[key]; ok {
+		return m, true
+	}
 	c.cache[key] = val
-	c.mu.Unlock()
+	return val, false
 }
 
 // FindMetadata finds metadata for given spec. The spec should indicate for local action hence it
@@ -240,7 +246,9 @@ func (c *LocalActionsCache) FindMetadata(spec string) (*ActionMetadata, bool, er
 
 	var meta ActionMetadata
 	if err := yaml.Unmarshal(b, &meta); err != nil {
-		c.writeCache(spec, nil) // Remember action was invalid
+		if m, ok := c.writeCache(spec, nil); ok { // Remember action was invalid
+			return m, true, nil
+		}
 		msg := strings.ReplaceAll(err.Error(), "\n", " ")
 		return nil, false, fmt.Errorf("could not parse action metadata in %q: %s", dir, msg)
 	}
@@ -248,7 +256,9 @@ func (c *LocalActionsCache) FindMetadata(spec string) (*ActionMetadata, bool, er
 	meta.dir = dir
 
 	c.debug("New metadata parsed from action %s: %v", dir, &meta)
-	c.writeCache(spec, &meta)
+	if m, ok := c.writeCache(spec, &meta); ok {
+		return m, true, nil
+	}
 	return &meta, false, nil
 }
 
